@@ -18,6 +18,7 @@ export VERIF_STOP_AT="${VERIF_STOP_AT:-5}"
 export JD_REPO="$WT" VERIF_EVIDENCE_DIR="$VERIF_DIR/.work/seed-ev-$TAG" VERIF_REPLAY_DIR="$VERIF_DIR/.work/seed-ev-$TAG/replays"
 mkdir -p "$VERIF_EVIDENCE_DIR"
 for C in "$@"; do
+  case "$C" in C15|C17) unset JDMC_SKIP_RACE;; *) export JDMC_SKIP_RACE=1;; esac
   OUT="$("$VERIF_DIR/run.sh" "$C" quick 2>&1)"; RC=$?
   FIRST="$(echo "$OUT" | grep -A2 -m1 '^VIOLATION' | tr '\n' ' ' | cut -c1-600)"
   echo "SEEDTEST $C exit=$RC $(echo "$OUT" | grep -c '^VIOLATION') violation lines | $FIRST"
